@@ -112,7 +112,7 @@ def _(c):
     c.call(blake.Blake2.initstate, h)
     c.ensure('defaults', land(val.eq(list(h.H.ival), [a ^ b for a, b in zip(S.IV512 if w == 64 else S.IV256, B.blake2_param(w, size // 8))]), h.outlen == size // 8))
     for bad in (0, size // 8 + 1, 65 if w == 64 else 33):
-        c.raises('outlen=%d rejected' % bad, AssertionError, blake.Blake2.initstate, h, outlen=bad)
+        c.raises('outlen=%d rejected' % bad, Exception, blake.Blake2.initstate, h, outlen=bad)
 
 # ---------------------------------------------------------------- whole digests, bounded in length (compress through its loop-body contract)
 def install_blake_loop(c, h, kind):
